@@ -649,6 +649,8 @@ package opset13
 //@   loop 2 invariant 0 <= kernelIdx && conv_cfg_ok(self, 2) && conv2d_geom(self, x, paddedX, outputHDim, outputWDim)
 //@   loop 3 invariant 0 <= h && conv_cfg_ok(self, 2) && conv2d_geom(self, x, paddedX, outputHDim, outputWDim)
 //@   loop 4 invariant 0 <= w && conv_cfg_ok(self, 2) && conv2d_geom(self, x, paddedX, outputHDim, outputWDim)
+//@   loop 3 invariant row_starts_are_stride_multiples: smod(h, self.strides[0]) == 0
+//@   loop 4 invariant column_starts_are_stride_multiples: smod(w, self.strides[1]) == 0
 //@   loop 3 exit assert rows_covered: h >= (outputHDim - 1) * self.strides[0] + 1
 //@   loop 4 exit assert columns_covered: w >= (outputWDim - 1) * self.strides[1] + 1
 
@@ -666,6 +668,7 @@ package opset13
 //@   loop 1 invariant 0 <= batchIdx && conv_cfg_ok(self, 1) && out != nil && fresh(out) && conv1d_geom(self, x, paddedX, outputHDim, strideSize)
 //@   loop 2 invariant 0 <= kernelIdx && conv_cfg_ok(self, 1) && conv1d_geom(self, x, paddedX, outputHDim, strideSize)
 //@   loop 3 invariant 0 <= h && conv_cfg_ok(self, 1) && conv1d_geom(self, x, paddedX, outputHDim, strideSize)
+//@   loop 3 invariant starts_are_stride_multiples: smod(h, self.strides[0]) == 0
 //@   loop 3 exit assert positions_covered: h >= (outputHDim - 1) * strideSize + 1
 
 //@ func (*Conv).addBias
